@@ -516,3 +516,29 @@ def _container_prog(rnd, nops):
             elif op == "clear": ops.append("t(lambda: %s.clear())" % a)
             else: ops.append("t(lambda: %s.update([%s, 5]))" % (a, v))
     return "\n".join(L + ops) + "\n", dict(nops=nops)
+
+# ------------------------------------------------------------------------------------------------
+# every generator's programs, as plain source strings (used by C18/C08/C10/C11)
+def all_programs(seed, n):
+    out = []
+    def add(rs):
+        for r in rs:
+            out.append(r if isinstance(r, str) else r[0])
+    add(control_flow_programs(seed, n)); add(nesting_programs(seed, n)); add(cleanup_programs())
+    add(scope_programs(seed, n)); add(generator_history_programs(seed, n)); add(consumer_programs())
+    add(container_history_programs(seed, n))
+    return out
+
+def repo_py_files(repo):
+    import os
+    res = []
+    for root, dirs, files in os.walk(repo):
+        dirs[:] = [d for d in dirs if not d.startswith(".")]
+        for f in sorted(files):
+            if f.endswith(".py"):
+                p = os.path.join(root, f)
+                try:
+                    res.append((os.path.relpath(p, repo), open(p, encoding="utf8", errors="surrogateescape").read()))
+                except OSError:
+                    pass
+    return sorted(res)
